@@ -45,3 +45,13 @@ Theorem C18_tracks_the_cache : forall c o h ls, forallb pop_ok h = true -> p_lim
   lim_tracks ls (tget TLis (s_cache (fst (jrun c o h)))).
 Proof. exact limiter_tracks_cache. Qed.
 Print Assumptions C18_tracks_the_cache.
+
+(** non-vacuity: service-port chain wins; else the port-less chain; a zero bucket on the service port means unlimited
+    (it does NOT fall through to the port-less chain); no inbound listener means unlimited *)
+Theorem C18_example :
+  let nf port tpf := {| nf_thrift := false; nf_rcname := ""; nf_port := port;
+                        nf_inline := Some {| rc_http := None; rc_thrift := None; rc_maxtok := 100; rc_tpf := tpf |} |} in
+  let up l := [(reserved_lds, VLis l)] in
+  (limiter_qps 8888 (up [nf 0 7; nf 8888 40]), limiter_qps 9999 (up [nf 0 7; nf 8888 40]), limiter_qps 8888 (up [nf 8888 0; nf 0 7]),
+   limiter_qps 8888 [("other", VLis [nf 8888 40])]) = (Some 40, Some 7, None, None).
+Proof. exact C18_example_proof. Qed.
